@@ -1030,7 +1030,11 @@ MUTANTS = [
     {'name': 'revert b1bdf71: Shomate site occupancy as a one-element tuple', 'expect': ('SLOT.yaml', 'Shomate.to_omkm_yaml'),
      'edits': [('pmutt/empirical/shomate.py', "            yaml_dict['sites'] = self.n_sites\n", "            yaml_dict['sites'] = self.n_sites,\n")]},
     {'name': 'revert 49f59b0: interaction strengths written unconverted', 'expect': ('DIM.strength', 'PiecewiseCovEffect.to_omkm_yaml'),
-     'edits': [('pmutt/mixture/cov.py', "        slopes = [c.convert_unit(slope, initial='kcal/mol', final=final) \\\n                  for slope in self.slopes]\n        strength_param = _Param('strength', slopes, final)", "        strength_param = _Param('strength', self.slopes, final)")]},
+     'edits': [('pmutt/mixture/cov.py', "        slopes = self._get_slopes(energy_unit, quantity_unit)\n        strength_param = _Param('strength', slopes, final)", "        strength_param = _Param('strength', self.slopes, final)")]},
+    {'name': 'revert dcdf1e7: slopes converted through the compound unit, which the table does not have per molecule',
+     'expect': ('DIM.strength', 'PiecewiseCovEffect'),
+     'edits': [('pmutt/mixture/cov.py', "        factor = c.convert_unit(initial='kcal', final=energy_unit) \\\n                 / c.convert_unit(initial='mol', final=quantity_unit)\n        return [slope * factor for slope in self.slopes]",
+                "        final = '{}/{}'.format(energy_unit, quantity_unit)\n        return [c.convert_unit(slope, initial='kcal/mol', final=final) for slope in self.slopes]")]},
     {'name': 'revert 114c759: no unit system given, unit-carrying option raises', 'expect': ('DATAFLOW.unit', 'write_yaml'),
      'edits': [('pmutt/omkm/__init__.py', '    # Assume SI units if units is not specified\n    if units is None:', '    # Assume SI units if units is not specified\n    if param.units is None:')]},
     {'name': 'revert 0f47d41: series given as text get a second unit', 'expect': ('DATAFLOW.unit', 'write_yaml'),
